@@ -150,7 +150,8 @@ func (solarWeek *SolarWeek) Next(weeks int, separateMonth bool) *SolarWeek {
 						week = NewSolarWeekFromYmd(lastDay.year, lastDay.month, lastDay.day, solarWeek.start)
 						weekMonth = week.month
 					} else {
-						c = NewSolarFromYmd(week.GetYear(), week.GetMonth(), SolarUtil.GetDaysOfMonth(week.year, week.month))
+						// the last day of the month: its first day moved on (October 1582 has 21 days, the last is the 31st)
+						c = NewSolarFromYmd(week.GetYear(), week.GetMonth(), 1).NextDay(SolarUtil.GetDaysOfMonth(week.year, week.month) - 1)
 						week = NewSolarWeekFromYmd(c.GetYear(), c.GetMonth(), c.GetDay(), solarWeek.start)
 					}
 				}
